@@ -21,6 +21,14 @@ case "$ID" in
       echo "HARNESS-ERROR: build of l21real (hooks off) against /repo failed"; grep -E "^error" -A8 target/build.log | head -60
       exit 2
     fi
+    # the repository's own command-line tools, built as shipped (guard off) into a directory of ours
+    case "$ID" in C05|C18)
+      if (cd /repo && CARGO_TARGET_DIR=/verif/realfs/target-bins cargo build --release --offline --bins -p lef21 -p layout21converters >/verif/realfs/target/build-bins.log 2>&1); then
+        export L21_BINS=/verif/realfs/target-bins/release
+      else
+        echo "HARNESS-ERROR: build of the repository's binaries failed"; grep -E "^error" -A8 /verif/realfs/target/build-bins.log | head -40; exit 2
+      fi;;
+    esac
     if [ "$TIER" = thorough ]; then N=200000; else N=4000; fi
     SUM=target/summary.$ID.$$.json
     ./target/release/l21real check "$ID" --runs $N --out $SUM; RC2=$?
